@@ -8,6 +8,7 @@ import (
 	"strings"
 	"testing"
 
+	slov1alpha1 "github.com/koordinator-sh/koordinator/apis/slo/v1alpha1"
 	"github.com/koordinator-sh/koordinator/pkg/zzverif/mc"
 )
 
@@ -202,7 +203,7 @@ func c20Sync(h *SLOCfgHandlerForConfigMapEvent, ev *c20Event, data map[string]st
 //   - every section additionally against the reference overlay of the text that is in force by the statement
 //     (mismatches there are layering violations and carry the same keys as in the leaf parts, unless the
 //     delivered section still equals the overlay of the PREVIOUS text: then the new text was not followed).
-func c20JudgeEvent(h *SLOCfgHandlerForConfigMapEvent, before [3]map[string]map[string]string, prior, cur *c20Model, ev *c20Event, vars [][]c20Variant, count func(string, int64)) (viol []mc.Violation) {
+func c20JudgeEvent(h *SLOCfgHandlerForConfigMapEvent, beforeSpecs [3]*slov1alpha1.NodeSLOSpec, before [3]map[string]map[string]string, prior, cur *c20Model, ev *c20Event, vars [][]c20Variant, count func(string, int64)) (viol []mc.Violation) {
 	_, flats, err := c20Observe(h, []int{0, 1, 2})
 	if err != nil {
 		return []mc.Violation{{Key: "C20|history|deliver-error", What: err.Error()}}
@@ -213,6 +214,25 @@ func c20JudgeEvent(h *SLOCfgHandlerForConfigMapEvent, before [3]map[string]map[s
 		if !seen[key] {
 			seen[key] = true
 			viol = append(viol, mc.Violation{Key: key, What: what})
+		}
+	}
+	// the reconciler's update path: the node's NodeSLO already exists and carries what was delivered before the event;
+	// what is written over it must be what a freshly created NodeSLO gets (nothing of the old spec may survive in the
+	// five sections: seed C20-7 kept an old host-application list when the new one is empty)
+	for n := 0; n < 3; n++ {
+		if beforeSpecs[n] == nil {
+			continue
+		}
+		_, upd, err := c20DeliverOver(h, n, beforeSpecs[n])
+		if err != nil {
+			return []mc.Violation{{Key: "C20|history|deliver-error", What: err.Error()}}
+		}
+		count("update_path_deliveries", 1)
+		for _, s := range secs {
+			if !c20FlatEq(upd[s.Name], flats[n][s.Name]) {
+				add("C20|history|update-path-differs-from-create-path|"+s.Name, fmt.Sprintf("after event %s: node %s, section %s: reconciling the EXISTING NodeSLO (spec before the event: %v) delivers %v, a newly created NodeSLO gets %v",
+					ev.Name, c20NodeNames[n], s.Name, before[n][s.Name], upd[s.Name], flats[n][s.Name]))
+			}
 		}
 	}
 	notKept := map[int]bool{}
@@ -355,7 +375,7 @@ func c20SectionsPart(env *mc.Env) {
 				unp = append(unp, nil)
 			}
 			prior := m.clone()
-			_, before, err := c20Observe(h, []int{0, 1, 2})
+			beforeSpecs, before, err := c20Observe(h, []int{0, 1, 2})
 			if err != nil {
 				panic(err)
 			}
@@ -369,7 +389,7 @@ func c20SectionsPart(env *mc.Env) {
 				}
 			}
 			unp = append(unp, u)
-			viol = c20JudgeEvent(h, before, prior, m, ev, vars, l.Count)
+			viol = c20JudgeEvent(h, beforeSpecs, before, prior, m, ev, vars, l.Count)
 		})
 		if ps != "" {
 			viol = append(viol, mc.Violation{Key: "C20|panic|sections", What: ps})
@@ -416,9 +436,10 @@ func (s *c20HistSys) Apply(op int, check bool) (bool, []mc.Violation) {
 	ev := &s.events[op]
 	prior := s.m.clone()
 	var before [3]map[string]map[string]string
+	var beforeSpecs [3]*slov1alpha1.NodeSLOSpec
 	if check {
 		var err error
-		if _, before, err = c20Observe(s.h, []int{0, 1, 2}); err != nil {
+		if beforeSpecs, before, err = c20Observe(s.h, []int{0, 1, 2}); err != nil {
 			return true, []mc.Violation{{Key: "C20|history|deliver-error", What: err.Error()}}
 		}
 	}
@@ -427,7 +448,7 @@ func (s *c20HistSys) Apply(op int, check bool) (bool, []mc.Violation) {
 	if !check {
 		return true, nil
 	}
-	return true, c20JudgeEvent(s.h, before, prior, s.m, ev, s.vars, s.res.Count)
+	return true, c20JudgeEvent(s.h, beforeSpecs, before, prior, s.m, ev, s.vars, s.res.Count)
 }
 
 func (s *c20HistSys) Invariants() []mc.Violation { return nil }
